@@ -1,11 +1,12 @@
-\* C05 thorough: 3 instances share 2 token positions; updates of up to two entries, a third live state, clock 1..2.
+\* C05 thorough: 3 instances share 2 token positions; a third live state; the clock runs 1..2 (Tick).
 CONSTANTS
   N = 3
   M = 2
   Shared = TRUE
   TsSet = {1, 2}
   LiveSt = {"ACTIVE", "LEAVING", "JOINING"}
-  MaxUpd = 2
+  MaxUpd = 1
+  Clock0 = 1
   MaxClock = 2
   ThinK = @@THINK@@
   ThinR = @@THINR@@
